@@ -303,7 +303,8 @@ func (s *State) assumeTypeInvComps(t types.Type, c []*T) {
 		}
 	case *types.Slice:
 		if len(c) == 4 {
-			_, maxInt := intRange(64, true)
+			// the Go runtime cannot allocate more than 2^48 bytes on 64-bit platforms: offsets and capacities stay below it
+			maxInt := IntLit(1 << 48)
 			s.Assume(And(Le(IntLit(0), c[1]), Le(IntLit(0), c[2]), Le(c[2], c[3]), Le(Add(c[1], c[3]), maxInt),
 				Implies(Eq(c[0], IntLit(0)), Eq(c[3], IntLit(0))), Ge(c[0], IntLit(0))))
 		}
